@@ -20,4 +20,25 @@ Next == Step \/ Halt \/ Term
 InvBalanced == Balanced(f)
 InvErrHasSpan == ErrHasSpan(f)
 InvJumpOk == JumpOk(Code, f)
+(***************************************************************************)
+(* RefsResolved (C07, reference clause): whatever was ACCEPTED contains no *)
+(* dangling reference, reachable or not.  The built-in names come from the *)
+(* signature table of the specification (Sigs), the registered extras      *)
+(* (`x`: what the harness registered for the job) and the job's own        *)
+(* templates / blocks / components from the listing the chunk came with.   *)
+(* Evaluated once per chunk (on its initial state) over the WHOLE code, so *)
+(* an instruction no abstract execution reaches is covered too.            *)
+(***************************************************************************)
+S == INSTANCE Sigs
+NamesOf(sigs) == {sigs[i].name : i \in 1..Len(sigs)}
+SeqSet(q) == {q[i] : i \in 1..Len(q)}
+Resolved(k, i) ==
+  CASE i.op = "ApplyFilter" -> i.a[1] \in NamesOf(S!Filters) \cup SeqSet(k.filters)
+    [] i.op = "RunTest" -> i.a[1] \in NamesOf(S!Tests) \cup SeqSet(k.tests)
+    [] i.op = "CallFunction" -> i.a[1] \in NamesOf(S!Functions) \cup SeqSet(k.functions) \cup {"super"}
+    [] i.op \in {"RenderInlineComponent", "RenderBodyComponent"} -> i.a[1] \in SeqSet(k.components)
+    [] i.op = "Include" -> i.a[1] \in SeqSet(k.templates)
+    [] i.op = "RenderBlock" -> i.a[1] \in SeqSet(k.blocks)
+    [] OTHER -> TRUE
+InvRefsResolved == f = Frame0 => \A n \in 1..Len(Code) : Resolved(Chunks[c].known, Code[n])
 =============================================================================
